@@ -18,6 +18,7 @@ import LiteFSVerif.Props.C05
 import LiteFSVerif.Proofs.Wal
 import LiteFSVerif.Gen.Skel
 import LiteFSVerif.Model.ExpectedSkel
+import LiteFSVerif.Proofs.RecoveryPos
 
 set_option linter.unusedSimpArgs false
 
@@ -200,6 +201,18 @@ theorem C17_valid_page_sizes_aligned (n : Nat) (h : Sqlite.validPageSize n = tru
   unfold Sqlite.validPageSize at h
   simp only [List.contains_cons, List.contains_nil, Bool.or_false, Bool.or_eq_true, beq_iff_eq] at h
   omega
+
+/-- journal playback on ARBITRARY journal bytes writes only inside the database's pages: playing
+    back one segment never extends the database file beyond the original size recorded in that
+    segment's header.  A record that claims page zero or the lock page ends the segment, a record
+    for a page above the original size is skipped (SQLite's `pager_playback_one_page` rules; the
+    record checksum does not cover the page number, so a flipped bit there passes it). -/
+theorem C17_rollback_segment_stays_inside (j : ByteArray) (liftM : Engine.M Engine.Eng → Except String Engine.Eng)
+    (hl : ∀ x a, liftM x = .ok a → x = .ok a) (fuel : Nat) (r : JR) (s : Engine.Eng) (out : JR × Engine.Eng)
+    (h : rollbackJournal.segs.frames j liftM fuel r s = .ok out) :
+    out.2.pageSize = s.pageSize ∧ out.1.commit = r.commit ∧
+    (Engine.dbBytes out.2).size ≤ max (Engine.dbBytes s).size (r.commit * s.pageSize) :=
+  frames_size_bound j liftM hl fuel r s out h
 
 /-- the control skeletons (branch conditions, loop heads, returns, order of calls and of state
     assignments) of `JournalReader.Next`, `JournalReader.ReadFrame`, regenerated from the current source on every run, are the ones the
